@@ -573,6 +573,21 @@ func (st *State) mathCall(name string, args []Value) (Value, bool) {
 				return ts.F64(math.Pow(a.f, b.f)), true
 			}
 		}
+		if st.realMode() && !allConst && st.h.mode != ModeORD {
+			// solver-aided constant propagation: an argument pinned by the path (e.g. a concretized tick index)
+			ca, cb := a, b
+			if !ca.isConst() {
+				ca = st.tryConst(st.toReal(a))
+			}
+			if !cb.isConst() {
+				cb = st.tryConst(st.toReal(b))
+			}
+			fa, oka := constFloat(ca)
+			fb, okb := constFloat(cb)
+			if oka && okb {
+				return ts.F64(math.Pow(fa, fb)), true
+			}
+		}
 		// real reading with a small concrete integer exponent: the product
 		if st.h.mode == ModeR && b.isConst() && b.sort == SF64 && b.f == math.Trunc(b.f) && b.f >= 0 && b.f <= 12 {
 			ra := st.toReal(a)
@@ -1066,4 +1081,19 @@ func (st *State) closeTo(leq bool, a, b, rel, abs *Term) *Term {
 	mx := st.mathMax(ts.fun1(OFAbs, a), ts.fun1(OFAbs, b))
 	tol := ts.Or(ts.fcmp(OFLe, d, abs), ts.fcmp(OFLe, d, ts.fbin(OFMul, rel, mx)))
 	return ts.Or(exact, ts.And(ts.Not(bad), tol))
+}
+
+// constFloat returns the float64 value of a constant float or rational term.
+func constFloat(t *Term) (float64, bool) {
+	if !t.isConst() {
+		return 0, false
+	}
+	switch t.sort {
+	case SF64:
+		return t.f, true
+	case SReal, SInt:
+		f, _ := t.r.Float64()
+		return f, true
+	}
+	return 0, false
 }
